@@ -121,6 +121,19 @@ func NewUniverse(r *lib.Rng, nRandom int, maxVals int) *Universe {
 	return u
 }
 
+// Drop removes the pool types for which f answers true (before the matrices are filled).
+func (u *Universe) Drop(f func(i int) bool) {
+	k := 0
+	for i := range u.L {
+		if f(i) {
+			continue
+		}
+		u.Specs[k], u.L[k], u.R[k], u.Dec[k], u.InM[k], u.Text[k] = u.Specs[i], u.L[i], u.R[i], u.Dec[i], u.InM[i], u.Text[i]
+		k++
+	}
+	u.Specs, u.L, u.R, u.Dec, u.InM, u.Text = u.Specs[:k], u.L[:k], u.R[:k], u.Dec[:k], u.InM[:k], u.Text[:k]
+}
+
 func (u *Universe) FillInst() {
 	u.Inst = make([][]bool, len(u.L))
 	for t := range u.L {
